@@ -455,7 +455,7 @@ def rest_docutils_messages(s: str) -> Tuple[List[Tuple[int, str, str]], Dict[str
     doc = publish_doctree(s, settings_overrides={
         "input_encoding": "unicode", "report_level": 1, "halt_level": 5,
         "warning_stream": stream, "file_insertion_enabled": False, "raw_enabled": False,
-        "traceback": False})
+        "traceback": True})   # let exceptions propagate instead of sys.exit(1)
     seen, msgs = set(), []
     for m in list(doc.findall(nodes.system_message)) + list(doc.transform_messages):
         if id(m) in seen:
@@ -496,7 +496,7 @@ REST_DOCUTILS_RULE_CLASSES = {
 # simple TAR
 # ---------------------------------------------------------------------------
 
-_TAR_NAMECH = "".join(chr(c) for c in range(0x21, 0x7f))          # printable, no whitespace
+# file name characters: printable ASCII without whitespace = 0x21..0x7e ("!-~")
 _TAR_FNAME_RE = re.compile(r"[A-Za-z0-9_][!-~]*\x00*\Z")
 _TAR_LINK_RE = re.compile(r"(?:[A-Za-z0-9_][!-~]*\x00*|\x00+)\Z")
 _TAR_CK_RE = re.compile(r"[0-7]{6}\x00 \Z")
